@@ -32,6 +32,14 @@ class Deadlock(Exception):
         self.info = info
 
 
+class Livelock(Deadlock):
+    """An execution that passed MAX_STEPS scheduling points without completing: some call spins (a retry loop that can never
+    succeed).  info has the shape of a Deadlock's: [(thread, state, wait_on, pending operation)]; spinning threads are 'spinning'."""
+
+
+MAX_STEPS = 30000   # the longest executions of the checks have a few thousand scheduling points
+
+
 class HarnessTimeout(Exception):
     pass
 
@@ -190,6 +198,8 @@ class Sched:
                     self.trace.append(("preempt", self.total_steps, last.idx, t.idx, last.pending, len(self.log)))
                 last = t
                 self.total_steps += 1
+                if self.total_steps > MAX_STEPS:
+                    raise Livelock([(x.idx, "spinning" if x.state == "ready" else x.state, x.wait_on, x.pending) for x in self.ts])
                 t.sem.release()
                 if not self.sem.acquire(timeout=WATCHDOG_S):
                     raise HarnessTimeout(f"thread {t.idx} did not reach a scheduling point in {WATCHDOG_S}s "
@@ -505,6 +515,26 @@ def install_dispatch():
     multiprocessing.Lock = mk("ml", SLock)
     multiprocessing.Condition = mk("mc", SCondition)
     multiprocessing.Manager = mk("mm", lambda *a, **k: _SManager())
+    # time.sleep called by the code under test inside an owned execution: virtual time - a scheduling point, no waiting (a retry
+    # loop with back-off would otherwise cost real seconds per explored schedule, and one that can never succeed real hours)
+    import time as _time
+    real_sleep = _time.sleep
+    _REAL_PRIMS["sleep"] = real_sleep
+
+    def sleep(secs):
+        s = cur()
+        if s is not None and s.me() is not None and _called_from_store_1():
+            s.yield_point(("sleep", secs))
+            return None
+        return real_sleep(secs)
+    sleep.__wrapped__ = real_sleep
+    _time.sleep = sleep
+
+
+def _called_from_store_1():
+    import sys
+    f = sys._getframe(2)
+    return str(f.f_globals.get("__name__", "")).startswith("hashstore")
 
 
 @contextlib.contextmanager
